@@ -31,6 +31,7 @@ MANIFEST = {
             "path component, valid token' is demanded. Children iteration order is not judged.",
 }
 MANIFEST["text"] += " Output directory spellings are cycled (not drawn) and include a link to a directory elsewhere followed by '..'."
+MANIFEST["text"] += ' Every walked set contains sibling namespaces whose names are prefixes of one another and namespaces with the same last component at the same depth under different parents.'
 
 
 def path_component_ok(lang, original, got):
